@@ -8,6 +8,7 @@ CONSTANTS
   Vals = {1, 2}
   BadVals = {}
   WalSteps = FALSE
+  WalParts = {0}
   FlushSteps = FALSE
   CrashAt = {}
   MaxStmts = 4
